@@ -7,6 +7,9 @@ ROOT = "/verif"
 RELATED = {"C01": ["C09"], "C05": ["C15"], "C13": ["C09"], "C02": ["C09"], "C03": ["C04"], "C04": ["C03"], "C08": ["C09"], "C09": ["C08", "C02"],  "C20": ["C05"], "C10": ["C17"], "C17": ["C10"]}
 tier = "quick"
 args = sys.argv[1:]
+own_only = False
+if args[:1] == ["--own-only"]:            # only the seeded change's own property (the related checks are informative, and slow)
+    own_only = True; args = args[1:]
 if args[:1] == ["--tier"]:
     tier = args[1]; args = args[2:]
 ids = args or sorted(os.listdir(ROOT + "/seeded"))
@@ -25,7 +28,7 @@ for sid in ids:
     subprocess.run(["git", "-C", "/repo", "apply", d + "/patch.diff"], check=True)
     res = {}
     try:
-        for p in [prop] + RELATED.get(prop, []):
+        for p in [prop] + ([] if own_only else RELATED.get(prop, [])):
             if p not in claimed:
                 res[p] = {"exit": None, "violation_line": None, "concrete_input": False, "summary": "property not claimed in MANIFEST.json"}
                 continue
